@@ -18,6 +18,7 @@
 //verif:stub crypto/rsa.VerifyPKCS1v15 -> stubVerifyPKCS1
 //verif:stub crypto/ecdsa.Verify -> stubECDSAVerifyJWS
 //verif:stub crypto/ed25519.Verify -> stubEd25519Verify
+//verif:stub (github.com/golang-jwt/jwt/v4.MapClaims).Valid -> stubClaimsValid
 //verif:stub strings.HasPrefix -> stubHasPrefix
 //verif:stub strings.ToLower -> stubToLower
 //verif:havocfield protected.Algorithm -> genAlg
@@ -402,3 +403,15 @@ func stubEd25519Verify(pub ed25519.PublicKey, msg, sig []byte) bool {
 // golang-jwt's diagnostic "does the token start with 'bearer '" on a decode error: irrelevant text predicates
 func stubHasPrefix(s, prefix string) bool { return rt.Bool(rt.Name("hasprefix")) }
 func stubToLower(s string) string         { return s }
+
+// jwt's registered-claims validation (exp / nbf / iat against the wall clock): the payload is an arbitrary JSON object,
+// so if the library were asked it could say anything. The repo configures the parser not to ask.
+var claimsValidCalls int
+
+func stubClaimsValid(m jwt.MapClaims) error {
+	claimsValidCalls++
+	if rt.Choose(rt.Name("claims.valid"), 2) == 1 {
+		return rt.NewEnvError("claims")
+	}
+	return nil
+}
